@@ -85,6 +85,18 @@ def make_case(sig, args, kwargs, rng, kind="function", async_=False, hostile=Non
         args = [50] + args
         nonvar = ["self"] + nonvar
     genck.set_sig(case, sig)
+    if rng.random() < 0.12:
+        # an argument is passed explicitly as the very object None (id 777): it is a value like any other - not "missing",
+        # not to be replaced by the parameter's default
+        own = 1 if kind == "method" else 0
+        spots = [("a", i) for i in range(own, len(args))] + [("k", i) for i in range(len(kwargs))]
+        if spots:
+            where, i = rng.choice(spots)
+            args, kwargs = list(args), [list(kv) for kv in kwargs]
+            if where == "a":
+                args[i] = 777
+            else:
+                kwargs[i][1] = 777
     case["args"], case["kwargs"] = args, kwargs
     lv["pre"].append(genck.contract(1, nonvar + ["_ARGS", "_KWARGS"], err={"cls": {"subBase": True, "truthy": True}}))
     sub = rng.sample(nonvar, min(len(nonvar), rng.randint(0, 2)))
